@@ -1196,4 +1196,18 @@ example : handleChange pre env nodeL (.full "m" "target") 60 = ⟨.error .rangeE
     ⟨by simp [nodeL], rfl, rfl, by simp [mL], by decide +kernel⟩ rfl rfl 60 60 rfl rfl rfl ls rfl (by decide)
     (fun i _ _ => by simp [env]) (by decide +kernel)
 
+namespace LayoutExample
+open Example Frappy.ExtParams
+/-- the module class removes the `target_max` its base class declared (`target_max = None`): the automatic check is still
+in the chain (attached to the base class), the module has no such parameter -/
+def targetR : Param Nat Nat := Example.target.withLayout [{}, { declMax := true }]
+def mR : Module Nat Nat := { name := "m", exported := true, accs := [.param targetR, .param ro, .command stop], props := [] }
+end LayoutExample
+
+open LayoutExample Example in
+/-- a removed limit does not restrict (and does not make the check fail: repo ff071c8): 60 reaches the driver -/
+example : chainOf [{}, { declMax := true }] 0 = [.limits] ∧
+    (handleChange pre env [mR] (.full "m" "target") 60).calls = [DriverCall.write "m" "target" 60] := by
+  decide +kernel
+
 end Frappy.Props.C04
